@@ -8,7 +8,7 @@ RULE = ('each case = one clock (init value) and 1-60 send/recv calls with inject
         'counter 65534/65535, fractional 250-255); non-trivial = at least one successful send AND at least one of '
         '{accepted recv, refused call, stalled-or-backwards wall}; distinct by hash of the op lines')
 ASSUMPTIONS = ['wall clock readings are injected through the verif hook (get_datacake_timestamp override)',
-               'theorems assume WallOk (wall reading multiple of 4 ms, before year 2159); beyond it the model still mirrors the code and is compared, but no theorem applies']
+               'theorems assume WallOk = the wall reading is a multiple of 4 ms (the resolution of the packed stamp; get_datacake_timestamp rounds); since fix D16 there is no range condition: readings beyond the representable seconds are refused with Overflow, in the model and in the theorems']
 TRUSTED_BASE = ['correspondence: dcharness (real HLCTimestamp::send/recv) vs dcdriver (Datacake.Ts.send/recv) on generated call sequences',
                 'hook H1 (datacake-crdt feature verif)']
 THEOREM_NOTE = 'Datacake.Ts.send / Datacake.Ts.recv (Model/Timestamp.lean); theorems send_spec, recv_spec, recv_error_iff, history_monotone'
